@@ -54,7 +54,9 @@ func (h *harness) localHistories() {
 	defer func() { client.SafeHttpTransport.DialContext = origDial }()
 	client.DefaultCachingTransport = h.rec // vdr.Configure builds its did:web resolver from this
 
-	n := node.Start(h.t, node.Options{DIDMethods: []string{"web", "nuts"}})
+	// the rate limiter for expensive internal calls (30 in a burst) is a did:nuts network protection, not under test here
+	n := node.Start(h.t, node.Options{DIDMethods: []string{"web", "nuts"}, Env: map[string]string{"NUTS_INTERNALRATELIMITER": "false",
+		"NUTS_PKI_DENYLIST_URL": ""}}) // no global denylist: it cannot be downloaded here and did:x509 would refuse every chain
 	defer n.Stop()
 	client.StrictMode = true
 	mod := node.Engine[*vdr.Module](n)
@@ -329,6 +331,9 @@ func (h *harness) localHistories() {
 	if nDeact == 0 || nDeact == len(subjects) {
 		r.Fatalf("local history has no mix of active and deactivated subjects (%d of %d deactivated)", nDeact, len(subjects))
 	}
+
+	// did:x509 through the node's resolver (real PKI validator); all inputs come from the caller
+	h.x509Local(res, outbound)
 
 	// identifiers that LOOK local (the node's own host) but do not exist are not managed by this node: they go to the web, to the encoded origin
 	own := strings.TrimPrefix(n.Public, "http://")
